@@ -30,11 +30,28 @@ Grow(X) == X \cup {P(x) : x \in X} \cup {S(x) : x \in X} \cup {A(x) : x \in X}
 RECURSIVE GrowN(_,_)
 GrowN(X, d) == IF d = 0 THEN X ELSE GrowN(Grow(X), d - 1)
 
+\* paired growth: both sides grow together (plus the three pointer asymmetries and array->slice), which reaches
+\* deep *convertible* pairs without enumerating the quadratically many unrelated ones
+PGrow(X) == X \cup {<<P(p[1]), P(p[2])>> : p \in X} \cup {<<p[1], P(p[2])>> : p \in X} \cup {<<P(p[1]), p[2]>> : p \in X}
+              \cup {<<S(p[1]), S(p[2])>> : p \in X} \cup {<<A(p[1]), S(p[2])>> : p \in X}
+              \cup {<<M(STR, p[1]), M(STR, p[2])>> : p \in X}
+              \cup {<<M(p[1], INT), M(p[2], INT)>> : p \in {q \in X : Comparable(q[1]) /\ Comparable(q[2])}}
+              \cup {<<St(<<Fld("F", p[1])>>), St(<<Fld("F", p[2])>>)>> : p \in X}
+RECURSIVE PGrowN(_,_)
+PGrowN(X, d) == IF d = 0 THEN X ELSE PGrowN(PGrow(X), d - 1)
+Permissive == [skip |-> TRUE, zero |-> TRUE]
+BasePairs(L) == {p \in L \X L : Conv(Permissive, p[1], p[2])}
+\* the (source, target) pairs of a universe: every pair of independently grown terms, or paired growth
+PairsOf(mode, L, d) == IF mode = "paired" THEN PGrowN(BasePairs(L), d) ELSE GrowN(L, d) \X GrowN(L, d)
+
 AllBasics == {B(k) : k \in BasicKinds}
 LeavesQuick == {INT, STR, B("int64"), B("bool"), NI, NSt, NSt2, NA, ANY, Fn, St(<<>>)}
 LeavesFull  == AllBasics \cup {NI, NI2, NS, NSt, NSt2, NA, NP, NSl, NM, ANY, ERR, IFM, Fn, Ch, St(<<>>)}
 LeavesDeep  == {INT, STR, NI, NSt, NSt2, NA, ANY}
 LeavesTiny  == {INT, STR, NI, NSt}
+LeavesVal   == LeavesQuick \cup {NSl, NM, NP, NS}
+LeavesPair  == {INT, NI, NSt, NSt2, NSl, S(INT), ANY}
+LeavesMini  == {INT, NSt, NSt2}
 
 \* the leaves goverter cannot convert by itself, and named non-struct types (C13)
 LeavesOdd   == {INT, B("uintptr"), B("unsafe.Pointer"), ERR, ANY, IFM, Fn, Ch, NI, NSt, NP, NSl, NM, NA}
